@@ -735,10 +735,15 @@ def validate_unique_names(nodes):
     visit(nodes, True)
 
 
+UNWRITABLE_TEXT = r"[\x00-\x1f]|--|\+\+|0[xX][0-9a-fA-F]*[eE][-+]"
+""" expression text that is pasted into the generated code: a line break ends a Python statement, -- is a C++ operator,
+    0xE+1 is one (ill-formed) number for a C++ compiler """
+
+
 def validate_values(nodes, constants, strict=False):
     """ Enumerators and union discriminators are encoded as 32-bit unsigned integers. Requires cross referenced nodes. """
     def check(what, owner, value, low=0, high=0xFFFFFFFF, range_name="32-bit unsigned range"):
-        if strict and isinstance(value, six.string_types) and re.search(r"[\x00-\x1f]|--|\+\+", value):
+        if strict and isinstance(value, six.string_types) and re.search(UNWRITABLE_TEXT, value):
             """ the text is pasted into the generated code: a line break ends a Python statement, -- is a C++ operator """
             raise ModelError("%s %r of %s cannot be written in the generated code" % (what, value, owner))
         try:
@@ -788,7 +793,7 @@ def validate_values(nodes, constants, strict=False):
                 check("enumerator value", node.name, member.value)
         elif isinstance(node, Struct) and strict:
             for member in node.members:
-                if isinstance(member.size, six.string_types) and re.search(r"[\x00-\x1f]|--|\+\+", member.size):
+                if isinstance(member.size, six.string_types) and re.search(UNWRITABLE_TEXT, member.size):
                     raise ModelError("size %r of array '%s' of %s cannot be written in the generated code" % (member.size, member.name, node.name))
                 if isinstance(member.size, six.string_types):
                     check_size_text(member.size, "array '%s' of %s" % (member.name, node.name))
